@@ -8,5 +8,8 @@ import (
 
 // Register announces the implemented checks.
 func Register(reg func(id, level string, f func(*load.Prog, *report.Report))) {
+	reg("C10", "other", C10)
+	reg("C15", "proof", C15)
+	reg("C16", "proof", C16)
 	reg("C17", "proof", C17)
 }
